@@ -243,7 +243,7 @@ async def twice_same_days(case):
     await cl.connect()
     try:
         seq = [getattr(Days, n) for n in case["args"]["days"]]
-        days = {"set": set, "list": list, "tuple": tuple}[case["args"].get("days_form", "set")](seq)
+        days = {"set": set, "frozenset": frozenset, "list": list, "tuple": tuple}[case["args"].get("days_form", "set")](seq)
         out = []
         with vclock.frozen_epoch(case.get("zone", "UTC"), case["ts"]):
             for i in range(case.get("repeat", 2)):
